@@ -19,7 +19,7 @@ def strategy(tier):
         'spec': st.one_of(specs.full_spec(max_nodes=9 if tier == 'quick' else 12),
                           specs.full_spec(max_nodes=9 if tier == 'quick' else 12),
                           specs.full_spec(max_nodes=9 if tier == 'quick' else 12), specs.two_conn_spec(),
-                          specs.conn_dv_spec(), specs.dead_end_spec()),
+                          specs.conn_dv_spec(), specs.dead_end_spec(), specs.excl_pattern_spec()),
         'enc': st.sampled_from(['COMPLETE', 'FAST']),
         'vseed': ints(0, 2**32),
     })
